@@ -31,7 +31,7 @@ def iterparseGo (s : Array Nat) : Nat → Nat → PState → Option (List CP)
     let c := s[k]!
     if c == cpHyphen then
       if st.escaped || k == n - 1 then
-        (iterparseGo s fuel (k + 1) { st with char := c, escaped := false }).map (.one c :: ·)
+        (iterparseGo s fuel (k + 1) { char := c, escaped := false, onRange := false }).map (.one c :: ·)
       else if st.onRange then
         (iterparseGo s fuel (k + 1) { st with char := c, onRange := false }).map (.one c :: ·)
       else
